@@ -1075,7 +1075,12 @@ def path_to_tree_path(
     if isinstance(path, bytes):
         path = os.fsdecode(path)
     path = Path(path)
-    resolved_path = path.resolve()
+    if path.is_symlink():
+        # A symlink names itself, not whatever it points at: only resolve
+        # the directory that contains it.
+        resolved_path = path.parent.resolve() / path.name
+    else:
+        resolved_path = path.resolve()
 
     # Resolve and abspath seems to behave differently regarding symlinks,
     # as we are doing abspath on the file path, we need to do the same on
